@@ -236,6 +236,49 @@ def random_behaviours(rng, count, garbage=False):
     return out
 
 
+def flow_behaviours(chk, rng, count):
+    """spec/RelayFlow.tla: the byte pipeline of one bridge direction (conservation of what was sent across the kernel queues, the relay's
+    write buffer and a receiver that stalls).  TLC checks conservation / order for the code's unbounded buffering and for a back-pressure
+    design, progress under fairness, and that the dropping and the never-resuming designs are refuted; the client-visible steps of its
+    state cover (send one unit, stall, unstall) are replayed on the real relay with units of 150-400 KB"""
+    import sched
+    r, hists = vlib.dump_hists("RelayFlow", "MC_RelayFlow_unbounded.cfg", workers=4, timeout=600)
+    chk.add_model("RelayFlow as coded (unbounded relay buffer), 5 units, kernel queues of 1 unit: C25_Conservation, C25_InOrder", r)
+    r2 = vlib.mc("RelayFlow", "MC_RelayFlow_hold.cfg", workers=4, timeout=600)
+    chk.add_model("RelayFlow with back-pressure (cap 2, resume at half): conservation, order, bounded backlog", r2)
+    vlib.mc("RelayFlow", "MC_RelayFlow_dev_drop.cfg", expect_violation="C25_Conservation", workers=2, timeout=600)
+    vlib.mc("RelayFlow", "MC_RelayFlow_reach_paused.cfg", expect_violation="Reach_Paused", workers=2, timeout=600)
+    vlib.mc("RelayFlow", "MC_RelayFlow_reach_backlog.cfg", expect_violation="Reach_StalledBacklog", workers=2, timeout=600)
+    sched.live(chk, "RelayFlow", "MC_RelayFlow_live_unbounded.cfg", workers=2)
+    sched.live(chk, "RelayFlow", "MC_RelayFlow_live_hold.cfg", workers=2)
+    sched.live(chk, "RelayFlow", "MC_RelayFlow_dev_noresume_live.cfg", expect_violation=True, workers=2)
+    seqs = set()
+    for h in hists:
+        vis = tuple(a["op"] for a in h if a["op"] in ("send", "stall", "unstall"))
+        if vis.count("send") >= 3 and "stall" in vis:
+            seqs.add(vis)
+    seqs = sorted(seqs)
+    pick = rng.sample(seqs, min(len(seqs), count))
+    out = []
+    for vis in pick:
+        unit = rng.choice([150000, 250000, 400000])
+        lines = ["reset n=2", "open c=1", "open c=2", "send c=1 p=reg:1", "send c=2 p=con:102:1,id:0:32,tok:1"]
+        tok = 1
+        stalled = False
+        for op in vis:
+            if op == "send":
+                tok += 1
+                lines.append("send c=2 p=raw:bin:%d:%d,tok:%d" % (unit, rng.randrange(1 << 16), tok))
+            else:
+                stalled = op == "stall"
+                lines.append("%s c=1" % op)
+        if stalled:
+            lines.append("unstall c=1")
+        lines += ["send c=2 p=tok:%d" % (tok + 1), "send c=1 p=tok:1", "final"]
+        out.append(lines)
+    return out
+
+
 def stalled_receiver_behaviours(rng, count):
     """an established bridge whose receiving side stops reading for a while: the relay may buffer, slow the sender down or close the
     bridge, but as long as both stay connected everything sent must arrive, in order, once the receiver reads again"""
@@ -399,7 +442,7 @@ def run(chk):
         run_and_validate(chk, [hist_to_script(h, rng).done() for h in h2], "tlc-state-cover-as-found-variant")
         run_and_validate(chk, transition_cover(hists + hists2, rng, 800 if not thorough else 12000), "tlc-transition-cover")
         run_and_validate(chk, random_behaviours(rng, 400 if not thorough else 8000), "random")
-        run_and_validate(chk, stalled_receiver_behaviours(rng, 6 if not thorough else 40), "slow-receiver")
+        run_and_validate(chk, stalled_receiver_behaviours(rng, 6 if not thorough else 40) + flow_behaviours(chk, rng, 10 if not thorough else 60), "slow-receiver")
     else:
         # C26: same generated executions, plus byte streams outside the protocol; the memory-safety clause is monitored
         # by running them under AddressSanitizer + UBSan as well
